@@ -1,10 +1,16 @@
 #!/bin/bash
-# usage: revtest.sh <commit> <check ids...> : apply the reverse of a fix commit to /repo, run checks, undo
+# usage: revtest.sh <commit> <check ids...> : undo one fix commit in /repo's working tree (3-way, nothing
+# is committed), run the repository's tests and the given checks, restore the tree
 c=$1; shift
 if [ -n "$(git -C /repo status --porcelain)" ]; then echo "/repo not clean"; exit 4; fi
-git -C /repo apply /verif/seeded/reverts/revert_$c.diff || { echo "reverse patch does not apply"; exit 3; }
+if ! git -C /repo revert --no-commit $c >/dev/null 2>&1; then
+  git -C /repo revert --abort >/dev/null 2>&1; git -C /repo reset -q --hard HEAD
+  echo "reverse of $c does not apply (later fixes build on it)"; exit 3
+fi
+git -C /repo reset -q   # keep the change in the working tree only
 (cd /repo && /venv/bin/python -m pytest -q -p no:cacheprovider 2>&1 | tail -1)
 for k in "$@"; do
   (cd /verif && ./check $k --tier quick 2>&1 | grep -E "VIOLATION|KNOWN|^\[|MACHINERY|^  \(" | head -4)
 done
-git -C /repo checkout -- .
+git -C /repo revert --abort >/dev/null 2>&1
+git -C /repo checkout -- . ; git -C /repo reset -q --hard HEAD
